@@ -128,3 +128,7 @@ impl RateLimit {
 		}
 	}
 }
+
+#[cfg(feature = "breard_r_acmed_verif")]
+#[path = "/verif/probe/endpoint_probe.rs"]
+mod verif;
